@@ -191,6 +191,106 @@ func (t Tree) Materialize(root string) error {
 	return nil
 }
 
+// MaterializeInPlace writes the tree the way `cmd > out` or a tool that overwrites its previous
+// results does: existing regular files are truncated and rewritten through their existing inode
+// (no unlink), entries that are no longer part of the tree are removed, everything else is
+// created. The resulting listing equals that of Materialize.
+func (t Tree) MaterializeInPlace(root string) error {
+	c := append(Tree{}, t...)
+	c.Sort()
+	if err := os.MkdirAll(filepath.Dir(root), 0755); err != nil {
+		return err
+	}
+	want := map[string]Entry{}
+	for _, e := range c {
+		want[e.Path] = e
+	}
+	// remove what does not belong (or has the wrong type)
+	if fi, err := os.Lstat(root); err == nil {
+		rootWant := want[""]
+		switch {
+		case rootWant.Type == "f" && !fi.Mode().IsRegular(), rootWant.Type == "d" && !fi.IsDir(), rootWant.Type == "l":
+			if err := os.RemoveAll(root); err != nil {
+				return err
+			}
+		case fi.IsDir():
+			var extra []string
+			_ = filepath.Walk(root, func(p string, info os.FileInfo, err error) error {
+				if err != nil || p == root {
+					return nil
+				}
+				rel, _ := filepath.Rel(root, p)
+				w, ok := want[filepath.ToSlash(rel)]
+				typ := "f"
+				if info.IsDir() {
+					typ = "d"
+				} else if info.Mode()&os.ModeSymlink != 0 {
+					typ = "l"
+				}
+				if !ok || w.Type != typ || typ == "l" {
+					extra = append(extra, p)
+					if info.IsDir() {
+						return filepath.SkipDir
+					}
+				}
+				return nil
+			})
+			for _, p := range extra {
+				if err := os.RemoveAll(p); err != nil {
+					return err
+				}
+			}
+		}
+	}
+	for _, e := range c {
+		p := root
+		if e.Path != "" {
+			p = filepath.Join(root, filepath.FromSlash(e.Path))
+		}
+		switch e.Type {
+		case "d":
+			if err := os.MkdirAll(p, 0755); err != nil {
+				return err
+			}
+		case "l":
+			if err := os.MkdirAll(filepath.Dir(p), 0755); err != nil {
+				return err
+			}
+			if err := os.Symlink(e.Link, p); err != nil {
+				return err
+			}
+		case "f":
+			if err := os.MkdirAll(filepath.Dir(p), 0755); err != nil {
+				return err
+			}
+			mode := os.FileMode(0644)
+			if e.Exec {
+				mode = 0755
+			}
+			f, err := os.OpenFile(p, os.O_WRONLY|os.O_CREATE|os.O_TRUNC, mode)
+			if err != nil {
+				// e.g. a read-only file left by a restore: replace it
+				_ = os.Remove(p)
+				f, err = os.OpenFile(p, os.O_WRONLY|os.O_CREATE|os.O_TRUNC, mode)
+				if err != nil {
+					return err
+				}
+			}
+			if _, err := f.Write(e.Data); err != nil {
+				f.Close()
+				return err
+			}
+			if err := f.Close(); err != nil {
+				return err
+			}
+			if err := os.Chmod(p, mode); err != nil {
+				return err
+			}
+		}
+	}
+	return nil
+}
+
 // Diff describes the first few differences between two trees (empty if equal).
 func Diff(want, got Tree) []string {
 	var out []string
